@@ -48,7 +48,7 @@ func (c *Ctx) validateCalls(p *Profile, sch *Schema, calls []*Call, par int) []M
 		bs[k].calls = append(bs[k].calls, cl)
 		bs[k].size += len(cl.Input) + 200
 	}
-	var mu sync.Mutex
+	var mu, big sync.Mutex
 	var out []Mismatch
 	var wg sync.WaitGroup
 	files := map[string][]byte{"profile.json": p.json(), "schema.json": sch.json()}
@@ -63,7 +63,18 @@ func (c *Ctx) validateCalls(p *Profile, sch *Schema, calls []*Call, par int) []M
 			for _, cl := range b.calls {
 				byID[cl.ID] = cl
 			}
-			mm, sum, err := c.validateTracesS("Trace_Decode", "TSpec", "Post", callsNDJSON(b.calls), files, 6)
+			// memory: nb JVMs run at once; 14 x 3 GB stays well inside the machine,
+			// a batch that does not fit is run again alone with a large heap
+			heap := 6
+			if nb > 6 {
+				heap = 3
+			}
+			mm, sum, err := c.validateTracesS("Trace_Decode", "TSpec", "Post", callsNDJSON(b.calls), files, heap)
+			if err != "" && (strings.Contains(err, "OutOfMemoryError") || strings.Contains(err, "GC overhead") || strings.Contains(err, "exit 137")) {
+				big.Lock()
+				mm, sum, err = c.validateTracesS("Trace_Decode", "TSpec", "Post", callsNDJSON(b.calls), files, 16)
+				big.Unlock()
+			}
 			mu.Lock()
 			defer mu.Unlock()
 			for _, s := range sum {
